@@ -81,6 +81,8 @@ def walk_writer(b, bi, si, cmplocal, val):
                 C[dst] = C[rv['op']['pl']['l']][5:]            # payload of an Option whose variant is known on this path
             elif rv['k'] == 'discr' and not rv['pl']['p'] and str(C.get(rv['pl']['l'], '')).startswith(('Some:', 'None')):
                 B[dst] = 1 if C[rv['pl']['l']].startswith('Some:') else 0
+            elif rv['k'] == 'discr' and not rv['pl']['p'] and rv['pl']['l'] in B and b.lty(rv['pl']['l']).get('adt') == 'core::cmp::Ordering':
+                B[dst] = B[rv['pl']['l']]           # the discriminant of a known Ordering (Less = -1, Equal = 0, Greater = 1)
             elif rv['k'] == 'use' and rv['op']['k'] == 'const' and 'int' in rv['op'] and b.lty(dst).get('k') == 'bool':
                 B[dst] = bool(rv['op']['int'])
             elif rv['k'] == 'unop' and rv['op'] == 'Not' and rv['a']['k'] in ('copy', 'move') and rv['a']['pl']['l'] in B:
@@ -136,7 +138,9 @@ def walk_writer(b, bi, si, cmplocal, val):
                 results.add(('offset+=', hit[0]))
         if t['k'] == 'switch' and t['op']['k'] in ('copy', 'move') and t['op']['pl']['l'] in B:
             v = int(B[t['op']['pl']['l']])
-            nxt = [dict(zip(t['vals'], t['targets'])).get(v, t['otherwise'])]
+            tbl = dict(zip(t['vals'], t['targets']))
+            hit = [tbl[x] for x in ((v,) if v >= 0 else (v, v & 0xFF, v & 0xFFFF, v & 0xFFFFFFFF, v & 0xFFFFFFFFFFFFFFFF, v & ((1 << 128) - 1))) if x in tbl]
+            nxt = [hit[0] if hit else t['otherwise']]
         have = {r[0] for r in results}
         if {'archive_size', 'written', 'offset+='} <= have:
             continue
@@ -163,6 +167,15 @@ def writers(facts):
                         ca, cb = len_class(b, rv['a']['pl']['l']), len_class(b, rv['b']['pl']['l'])
                         if {ca, cb} == {'C', 'R'}:
                             sites.append((bi, si, st, ca, cb))
+            # the same comparison as `c.len().cmp(&r.len())`, dispatched on the Ordering
+            t = b.blocks[bi]['term']
+            if t['k'] == 'call' and 'q' in t['callee'] and t['callee']['q'] in ('core::cmp::Ord::cmp', 'core::cmp::PartialOrd::partial_cmp') and len(t['args']) == 2 \
+                    and not t['dest']['p'] and t.get('t') is not None and b.lty(t['dest']['l']).get('adt') == 'core::cmp::Ordering':
+                bases = [b.base_of(a) for a in t['args']]
+                if all(x and not x[1] for x in bases):
+                    ca, cb = len_class(b, bases[0][0]), len_class(b, bases[1][0])
+                    if {ca, cb} == {'C', 'R'}:
+                        sites.append((bi, None, {'call': t, 'loc': t['loc'], 'pl': t['dest'], 'rv': {'op': 'cmp'}}, ca, cb))
         out.append((b, sites))
     return out
 
@@ -261,8 +274,13 @@ def run(facts, cg=None):
         bi, si, st, ca, cb = sites[0]
         row = {}
         for order in '<=>':
-            val = evalcmp(st['rv']['op'], ca, cb, order)
-            res = walk_writer(b, bi, si, st['pl']['l'], val)
+            if si is None:
+                rel = {'<': -1, '=': 0, '>': 1}[order]
+                val = rel if (ca, cb) == ('C', 'R') else -rel
+                res = walk_writer(b, st['call']['t'], -1, st['pl']['l'], val)
+            else:
+                val = evalcmp(st['rv']['op'], ca, cb, order)
+                res = walk_writer(b, bi, si, st['pl']['l'], val)
             row[order] = sorted(res)
             d = dict()
             for k, v in res:
